@@ -255,6 +255,7 @@ impl Printer {
                 self.out.push_str(v);
                 self.out.push_str(" in ");
                 self.expr(it, 0);
+                s.aux_line.set(self.line);
                 self.out.push(' ');
                 self.block(body);
             }
@@ -272,6 +273,7 @@ impl Printer {
                 self.out.push_str("throw ");
                 self.expr(e, 0);
                 self.out.push(';');
+                s.aux_line.set(self.line);
             }
             StmtKind::Try(body, catch, fin) => {
                 self.out.push_str("try ");
@@ -392,6 +394,26 @@ impl Printer {
         self.end_stmt();
     }
 
+    /// the inside of a string literal; with layout noise a line break may be written raw (the
+    /// literal then spans source lines and every later line number moves)
+    fn str_body(&mut self, s: &str) {
+        if self.inline == 0 && !self.noise.is_empty() && s.contains('\n') {
+            let b = self.noise[self.noise_pos % self.noise.len()];
+            self.noise_pos += 1;
+            if b % 2 == 0 {
+                for (i, piece) in s.split('\n').enumerate() {
+                    if i > 0 {
+                        self.out.push('\n');
+                        self.line += 1;
+                    }
+                    escape_str(piece, &mut self.out);
+                }
+                return;
+            }
+        }
+        escape_str(s, &mut self.out);
+    }
+
     fn args(&mut self, args: &[Expr]) {
         for (i, a) in args.iter().enumerate() {
             if i > 0 {
@@ -432,14 +454,14 @@ impl Printer {
             Expr::Num(n) => self.out.push_str(&num_text(*n)),
             Expr::Str(s) => {
                 self.out.push('"');
-                escape_str(s, &mut self.out);
+                self.str_body(s);
                 self.out.push('"');
             }
             Expr::Interp(parts) => {
                 self.out.push('"');
                 for part in parts {
                     match part {
-                        Part::Lit(s) => escape_str(s, &mut self.out),
+                        Part::Lit(s) => self.str_body(s),
                         Part::Ex(x) => {
                             self.out.push_str("${");
                             self.expr(x, 0);
